@@ -226,6 +226,7 @@ void reallocate_locals () {
   type_of_locals_ptr = type_of_locals + offset;
 
   offset = locals_ptr - locals;
+  locals_size += num_local_variables_allowed;	/* locals[] and runtime_locals[] grow in step with type_of_locals[] */
   locals = RESIZE (locals,
     locals_size,
     ident_hash_elem_t *,
